@@ -142,7 +142,16 @@ def record(src):
         d = tempfile.mkdtemp(prefix='vfbench')
         try:
             path = os.path.join(d, 'sub', 'c.bench')
-            c.save_to_file(path)
+            if src.get('ls', 0) % 3 == 0:
+                # the file held another circuit before (saved and loaded once); it is then overwritten through
+                # another spelling of the same path and loaded again
+                other = Circuit.bare_circuit(2, prefix='earlier_')
+                other.set_outputs(list(other.inputs))
+                other.save_to_file(path)
+                Circuit.from_bench_file(path)
+                c.save_to_file(os.path.join(d, 'sub', '..', 'sub', 'c.bench'))
+            else:
+                c.save_to_file(path)
             case['fparsed'] = project(Circuit.from_bench_file(path))
         except Exception as e:
             case['fexc'] = type(e).__name__
